@@ -6,6 +6,7 @@ import queue
 import select
 import subprocess
 import sys
+import tempfile
 import threading
 import time
 
@@ -14,7 +15,18 @@ HERE = os.path.dirname(os.path.abspath(__file__))
 
 class _Worker:
     def __init__(self, env):
-        self.p = subprocess.Popen([sys.executable, os.path.join(HERE, "worker.py")], stdin=subprocess.PIPE, stdout=subprocess.PIPE, stderr=subprocess.DEVNULL, env=env, text=True, bufsize=1)
+        self.err = tempfile.TemporaryFile()  # unlinked at once; read back only when the worker dies
+        self.p = subprocess.Popen([sys.executable, os.path.join(HERE, "worker.py")], stdin=subprocess.PIPE, stdout=subprocess.PIPE, stderr=self.err, env=env, text=True, bufsize=1)
+
+    def err_tail(self, n=400):
+        try:
+            self.err.seek(0, 2)
+            size = self.err.tell()
+            self.err.seek(max(0, size - 20000))
+            lines = [ln for ln in self.err.read().decode("utf-8", "replace").splitlines() if "ERROR" in ln or "rror:" in ln or "Fatal" in ln]
+            return " | ".join(lines[-3:])[-n:]
+        except Exception:  # noqa
+            return ""
 
     def call(self, task, timeout):
         self.p.stdin.write(json.dumps(task) + "\n")
@@ -30,16 +42,20 @@ class _Worker:
             if r:
                 line = self.p.stdout.readline()
                 if line == "":
-                    return {"error": "worker died", "crashed": True}
+                    return {"error": "worker died: " + self.err_tail(), "crashed": True}
                 if line.startswith("@@RESULT@@"):
                     return json.loads(line[len("@@RESULT@@"):])
             elif self.p.poll() is not None:
-                return {"error": f"worker exited rc={self.p.returncode}", "crashed": True}
+                return {"error": f"worker exited rc={self.p.returncode}: " + self.err_tail(), "crashed": True}
 
     def kill(self):
         try:
             self.p.kill()
             self.p.wait(timeout=5)
+        except Exception:
+            pass
+        try:
+            self.err.close()
         except Exception:
             pass
 
@@ -77,8 +93,13 @@ def run_tasks(tasks, nproc=None, timeout=120, env_extra=None):
             else:
                 results[i] = r
                 if isinstance(r, dict) and r.get("crashed"):
+                    # the interpreter itself died (native abort / kill): not behaviour of the code under test that a property
+                    # speaks about. Once more in a fresh worker; a second death is a harness error (raised below), never a verdict.
                     w.kill()
                     w = None
+                    if not t.get("_retried") and not r.get("hang"):
+                        q.put((i, dict(t, _retried=True)))
+                        results[i] = None
         if w is not None:
             try:
                 w.p.stdin.close()
@@ -89,4 +110,9 @@ def run_tasks(tasks, nproc=None, timeout=120, env_extra=None):
     ths = [threading.Thread(target=loop) for _ in range(nproc)]
     [t.start() for t in ths]
     [t.join() for t in ths]
+    if not q.empty():  # a retry queued after every loop thread had finished
+        loop()
+    dead = [(t, r) for t, r in zip(tasks, results) if isinstance(r, dict) and r.get("crashed") and not r.get("hang")]
+    if dead:
+        raise RuntimeError(f"worker process died twice on {dead[0][0].get('fn')} {json.dumps(dead[0][0].get('args'))[:200]}: {dead[0][1].get('error')}")
     return results
